@@ -26,39 +26,36 @@ def hasDupI : List Int → Bool
   | [] => false
   | x :: xs => xs.contains x || hasDupI xs
 
+/-- the part of `tt_dimscheck` after the array of selected modes has been formed: sign,
+range and repetition tests, sorting, the multiplicand count -/
+def dimsTail (N : Nat) (M : Option Nat) (dimArr : List Int) (exclDup : Bool) : Except Reject DimsCheck :=
+  if dimArr.any (· < 0) then .error .reject
+  else if dimArr.any (fun x => decide ((N : Int) ≤ x)) then .error .reject
+  else if hasDupI dimArr || exclDup then .error .reject
+  else
+    let P := dimArr.length
+    let sidx := argsortInt dimArr
+    let sdims := sidx.map (fun k => (dimArr.getD k 0).toNat)
+    match M with
+    | none => .ok ⟨sdims, none⟩
+    | some m =>
+      if m > N then .error .reject
+      else if m ≠ N ∧ m ≠ P then .error .reject
+      else if P = m then .ok ⟨sdims, some sidx⟩
+      else .ok ⟨sdims, some sdims⟩
+
 /-- `tt_dimscheck(N, M, dims, exclude_dims)`, branch by branch. -/
 def dimscheck19 (N : Nat) (M : Option Nat) (dims excl : Option (List Int)) :
     Except Reject DimsCheck :=
   match dims, excl with
   | some _, some _ => .error .reject
-  | _, _ =>
-    let dimArr? : Except Reject (List Int) :=
-      match excl with
-      | some e =>
-        if e.all (fun x => decide (0 ≤ x) && decide (x < (N : Int))) then
-          .ok (((List.range N).filter (fun (k : Nat) => !e.contains (Int.ofNat k))).map (fun (k : Nat) => Int.ofNat k))
-        else .error .reject
-      | none =>
-        match dims with
-        | none => .ok ((List.range N).map (fun (k : Nat) => Int.ofNat k))
-        | some d => .ok d
-    match dimArr? with
-    | .error e => .error e
-    | .ok dimArr =>
-      if dimArr.any (· < 0) then .error .reject
-      else if dimArr.any (fun x => decide ((N : Int) ≤ x)) then .error .reject
-      else if hasDupI dimArr || (match excl with | some e => hasDupI e | none => false) then .error .reject
-      else
-      let P := dimArr.length
-      let sidx := argsortInt dimArr
-      let sdims := sidx.map (fun k => (dimArr.getD k 0).toNat)
-      match M with
-      | none => .ok ⟨sdims, none⟩
-      | some m =>
-        if m > N then .error .reject
-        else if m ≠ N ∧ m ≠ P then .error .reject
-        else if P = m then .ok ⟨sdims, some sidx⟩
-        else .ok ⟨sdims, some sdims⟩
+  | some d, none => dimsTail N M d false
+  | none, none => dimsTail N M ((List.range N).map (fun (k : Nat) => Int.ofNat k)) false
+  | none, some e =>
+    if e.all (fun x => decide (0 ≤ x) && decide (x < (N : Int))) then
+      dimsTail N M (((List.range N).filter (fun (k : Nat) => !e.contains (Int.ofNat k))).map (fun (k : Nat) => Int.ofNat k))
+        (hasDupI e)
+    else .error .reject
 
 def validate_dimscheck (N : Nat) (M : Option Nat) (dims excl : Option (List Int)) : Except Reject Unit :=
   (dimscheck19 N M dims excl).map (fun _ => ())
